@@ -49,7 +49,7 @@ def renderFloat : FloatVal → String
   | .negZero => "fsym:negzero"
   | .int v => s!"fsym:int:{v}"
   | .dec t => s!"fsym:dec:{hex t}"
-  | .bin neg m sc base e => s!"fsym:bin:{if neg then 1 else 0}:{m}:{sc}:{base}:{e}"
+  | .bin neg n e => s!"fsym:bin:{if neg then 1 else 0}:{n}:{e}"
 
 def renderValue : Value → String
   | .bool b => s!"bool:{b}"
